@@ -73,6 +73,13 @@ func runC10(t *testing.T, c *choice.Stream, r *Result, opt RunOpt) {
 			// the context is created inside the bubble by main, so that its timer is on the fake clock
 		} else {
 			ctx, cancel = context.WithCancel(context.Background())
+			if far := c.Pick("far.deadline.s", 0, 0, 120, 600, 1800); far > 0 {
+				// a context that is cancelled explicitly long before its own (far) deadline
+				var c2 context.CancelFunc
+				ctx, c2 = context.WithTimeout(ctx, time.Duration(far)*time.Second)
+				_ = c2
+				r.Fire("cancel_with_far_deadline")
+			}
 			switch gateName {
 			case "callback":
 				names := []string{"result", "progress", "profile", "events", "logs"}
@@ -179,6 +186,10 @@ func runC10(t *testing.T, c *choice.Stream, r *Result, opt RunOpt) {
 			if derr == nil {
 				// the query completed; a cancellation that came too late changes nothing
 				r.Probe("completed_before_cancel")
+				return
+			}
+			if !isDone && ctx.Err() != nil {
+				r.Probe("far_deadline_expired_first")
 				return
 			}
 			if !isDone {
